@@ -120,7 +120,12 @@ func (r *Runner) guardCheck(st *State, p *Place, write bool, pos token.Pos) {
 				kind = "write"
 			}
 			if !held || (write && mode == "r") {
-				r.oblige(st, "lockset", fmt.Sprintf("%s %s.%s without %s", kind, shortType(p.Root), fname, mu), False, pos)
+				// an object allocated by this very call (constructor pattern) is not shared yet
+				goal := False
+				if p.Kind == PObj && !st.W0.IsZero() {
+					goal = Gt(p.Base, st.W0)
+				}
+				r.oblige(st, "lockset", fmt.Sprintf("%s %s.%s without %s", kind, shortType(p.Root), fname, mu), goal, pos)
 			}
 			return
 		}
